@@ -46,46 +46,60 @@ var c03Lib = []string{
 	"nested = (n) -> {\nfor i <- fromto(0, n) {\nfor j <- fromto(0, n) {\nif i * j == 6 return [i, j]\n}\n}\n}",
 	"ylds = () -> {\nv = 1\nyield () -> v\nv = 2\nyield () -> v\nv = 3\n}",
 	"collect = () -> {\nfs = []\nfor f <- ylds() fs = fs + [f]\nfa = fs[0]\nfb = fs[1]\n[fa(), fb()]\n}",
+	"map = (f, it) -> for e <- it() yield f(e)",
+	"itclos = (k, n) -> {\ns = 0\nfor v <- map((x) -> x + k, () -> fromto(0, n)) s = s + v\ns\n}",
+	"itpick = (a, b) -> {\nr = []\nfor f <- elems([() -> a, () -> a + b]) r = r + [f]\nfa = r[0]\nfb = r[1]\n[fa(), fb()]\n}",
 }
 
-func c03Calls(t *rapid.T) (call string, heavy bool) {
-	n := func(hi int) int { return rapid.IntRange(0, hi).Draw(t, "arg") }
-	d := rapid.SampledFrom([]int{0, 1, 40, 130, 300, 1000}).Draw(t, "deep")
-	switch rapid.IntRange(0, 12).Draw(t, "call") {
-	case 0:
-		return fmt.Sprintf("upd(%d, %d, %d)", n(9), d, n(5)), true
-	case 1:
-		return fmt.Sprintf("use(%d, %d, %d)", n(9), n(9), d), true
-	case 2:
-		return fmt.Sprintf("viaid(%d)", n(9)), true
-	case 3:
-		return fmt.Sprintf("sum(%d)", n(20)), true
-	case 4:
-		return fmt.Sprintf("zipsum(%d)", n(8)), true
-	case 5:
-		return fmt.Sprintf("fib(%d)", n(12)), false
-	case 6:
-		return fmt.Sprintf("compose(%d, %d)", n(9), n(9)), true
-	case 7:
-		return fmt.Sprintf("counter(%d)", n(6)), true
-	case 8:
-		return fmt.Sprintf("gensum(%d)", n(9)), true
-	case 9:
-		return fmt.Sprintf("nested(%d)", n(6)), true
-	case 10:
-		return "collect()", true
-	case 11:
-		return fmt.Sprintf("app(adder(%d), %d)", n(9), n(9)), true
-	default:
-		return fmt.Sprintf("app(twice(adder(%d)), %d) + sum(%d)", n(9), n(9), n(6)), true
+func c03Calls(t *rapid.T) (call, other string, heavy bool) {
+	kind := rapid.IntRange(0, 14).Draw(t, "call")
+	mk := func() (string, bool) {
+		n := func(hi int) int { return rapid.IntRange(0, hi).Draw(t, "arg") }
+		d := rapid.SampledFrom([]int{0, 1, 40, 130, 300, 1000}).Draw(t, "deep")
+		switch kind {
+		case 0:
+			return fmt.Sprintf("upd(%d, %d, %d)", n(9), d, n(5)), true
+		case 1:
+			return fmt.Sprintf("use(%d, %d, %d)", n(9), n(9), d), true
+		case 2:
+			return fmt.Sprintf("viaid(%d)", n(9)), true
+		case 3:
+			return fmt.Sprintf("sum(%d)", n(20)), true
+		case 4:
+			return fmt.Sprintf("zipsum(%d)", n(8)), true
+		case 5:
+			return fmt.Sprintf("fib(%d)", n(12)), false
+		case 6:
+			return fmt.Sprintf("compose(%d, %d)", n(9), n(9)), true
+		case 7:
+			return fmt.Sprintf("counter(%d)", n(6)), true
+		case 8:
+			return fmt.Sprintf("gensum(%d)", n(9)), true
+		case 9:
+			return fmt.Sprintf("nested(%d)", n(6)), true
+		case 10:
+			return "collect()", true
+		case 11:
+			return fmt.Sprintf("app(adder(%d), %d)", n(9), n(9)), true
+		case 12:
+			return fmt.Sprintf("itclos(%d, %d)", n(20), 1+n(4)), true
+		case 13:
+			return fmt.Sprintf("itpick(%d, %d)", n(20), n(20)), true
+		default:
+			return fmt.Sprintf("app(twice(adder(%d)), %d) + sum(%d)", n(9), n(9), n(6)), true
+		}
 	}
+	call, heavy = mk()
+	other, _ = mk()
+	return
 }
 
 type c03Case struct {
-	Lib  []string `json:"lib"`
-	Call string   `json:"call"`
-	Wide int      `json:"wide"`
-	Deep int      `json:"deep"`
+	Lib   []string `json:"lib"`
+	Call  string   `json:"call"`
+	Other string   `json:"other"` // the same function with other arguments
+	Wide  int      `json:"wide"`
+	Deep  int      `json:"deep"`
 }
 
 // placements returns, per placement, the statements to run after the library
@@ -105,7 +119,14 @@ func (c c03Case) placements() map[string][]string {
 	}
 	// the iterator reads the last local of the wide frame
 	fmt.Fprintf(&wideLoop, "zr = []\nfor zi <- fromto(0, %s - %d) zr = zr + [%s]\nzr\n}", letters("ww", c.Wide-1), c.Wide-3, f)
+	other := c.Other
+	if other == "" {
+		other = "0"
+	}
 	return map[string][]string{
+		// another activation of the same function earlier in the same statement (recycled iterator contexts)
+		"after-other-call":     {"{\nzo = [" + other + ", " + other + "]\n[" + f + "]\n}"},
+		"between-other-calls":  {"{\nzo = [" + other + "]\nzr = [" + f + "]\nzo = [" + other + "]\nzr + [" + f + "]\n}"},
 		"wide-loop-after-loop": {wideLoop.String(), "{\nfor zq <- fromto(0, 2) zq\nwideloop()\n}"},
 		"top":                  {"[" + f + "]"},
 		"twice":                {"[" + f + ", " + f + "]"},
@@ -127,6 +148,12 @@ func (c c03Case) placements() map[string][]string {
 // c03Check runs every placement on a fresh VM; each must end with a list whose
 // elements all render like the top-level result.
 func c03Check(c c03Case) (why string, grew bool, skip string) {
+	if c.Other != "" {
+		// the other activation must itself succeed, or the placements that run it first are different programs
+		if o, internal := runEmbedding(c.Lib, []string{"[" + c.Other + "]"}); internal != "" || o.err != "" || strings.HasPrefix(o.val, "ABORT") || strings.HasPrefix(o.val, "RESIDUE") {
+			c.Other = ""
+		}
+	}
 	base, internal := runEmbedding(c.Lib, c.placements()["top"])
 	if internal != "" {
 		return "", false, internal
@@ -202,12 +229,12 @@ func c03Prop(rec *ev.Recorder) func(t *rapid.T) {
 		if rapid.IntRange(0, 3).Draw(t, "source") == 0 {
 			g := &gen.G{T: t, NoIO: true}
 			c.Lib = append(c.Lib, g.Environment(rapid.IntRange(0, 3).Draw(t, "globals"), 0)[1:]...)
-			def, call := g.PureFunction(rapid.IntRange(1, 3).Draw(t, "d"))
+			def, call, other := g.PureFunction(rapid.IntRange(1, 3).Draw(t, "d"))
 			c.Lib = append(c.Lib, def)
-			c.Call = call
+			c.Call, c.Other = call, other
 			heavy = strings.Contains(def, "for ") || strings.Contains(def, "while ") || strings.Contains(def, "->")
 		} else {
-			c.Call, heavy = c03Calls(t)
+			c.Call, c.Other, heavy = c03Calls(t)
 		}
 		why, grew, skip := c03Check(c)
 		if skip != "" {
@@ -217,7 +244,7 @@ func c03Prop(rec *ev.Recorder) func(t *rapid.T) {
 		if why != "" {
 			fail(t, "C03", "call", c, "call %s\n%s", c.Call, why)
 		}
-		rec.Case(c.Call+"|"+fmt.Sprint(c.Wide, c.Deep)+"|"+strings.Join(c.Lib[len(c03Lib):], "\n"), heavy && grew, fmt.Sprintf("stack-moved:%v", grew))
+		rec.Case(c.Call+"|"+c.Other+"|"+fmt.Sprint(c.Wide, c.Deep)+"|"+strings.Join(c.Lib[len(c03Lib):], "\n"), heavy && grew, fmt.Sprintf("stack-moved:%v", grew))
 	}
 }
 
